@@ -55,6 +55,8 @@ class CustomErr(Exception):
 class Thing(metaclass=CanaryMeta):
     exposed_x = 11
     x = 12
+    vdata = "alice"
+    vcount = 100
     exposed_only = 13
     pub = 14
     _priv = 15
@@ -188,7 +190,7 @@ class Loud(Thing):
         raise SystemExit(3)
 
 
-VIEW_NAMES = ["x", "pub", "exposed_x", "state"]
+VIEW_NAMES = ["x", "exposed_x", "vdata", "vcount"]
 
 
 def illegitimate_writes(state_writes):
@@ -224,7 +226,7 @@ def canary_service():
             self.state = 0
             # "what the service exposes" includes views made by helpers.restricted(): read-only (wattrs=()), writable
             # for one name, and the default (writable for every readable name)
-            names = ["x", "pub", "exposed_x", "state"]
+            names = list(VIEW_NAMES)
             self.view_targets = [Thing("ro_target"), Thing("w1_target"), Thing("rw_target"), Thing("ro2_target")]
             self.views = [restricted(self.view_targets[0], names, wattrs=()),
                           restricted(self.view_targets[1], names, wattrs=["x"]),
@@ -979,7 +981,11 @@ class Gen:
         good = "exposed_val" if is_root else "exposed_x"
         denied = r.choice(["secret", "poke", "secret_call", "_hidden"] if is_root else ["secret", "poke", "_priv", "secret_m", "pub_m"])
         methods = (("startswith", ""), ("__radd__", ""), ("decode", ""), ("__add__", ""), ("encode", ""))
-        script = [(1, methods), (1, False), (1, 987654321 + r.below(1000)), (1, good), (1, denied), (1, denied), (1, ())]
+        # the server's questions, in the order it would ask them if it took the proxy for a name: the class's methods
+        # (HANDLE_INSPECT), `name.startswith` (GETATTR: a function of ours, by reference), calling it, `hash(name)`,
+        # `prefix + name` twice (`__radd__`): an exposed name while it is being checked, a denied one when it is used
+        script = [(1, methods), (4, ("builtins.function", 7, 7)), (1, False), (1, 987654321 + r.below(1000)), (1, good), (1, denied),
+                  (1, denied), (1, ())]
         if r.chance(1, 4):
             script = [(1, methods), (1, r.choice([True, "exposed_x", 5])), (1, r.below(100)), (1, denied), (1, good)]
         k = nxt
